@@ -29,6 +29,7 @@ import (
 	"github.com/google/uuid"
 
 	"github.com/quay/claircore"
+	"github.com/quay/claircore/internal/verifhook"
 	"github.com/quay/claircore/libvuln/driver"
 	"github.com/quay/claircore/libvuln/jsonblob"
 	"github.com/quay/claircore/verifharness/internal/hx"
@@ -318,6 +319,7 @@ type update struct {
 	toks    []int
 	ref     uint64
 	desc    string
+	cut     int // -1, or the number of records that reached the output when a Store call failed on this update
 }
 
 type world struct {
@@ -336,6 +338,11 @@ type world struct {
 	reusedRef     bool // the scenario scripted a uuid that was already written out
 	rawScenario   bool
 	loaderProblem string // set by runLoader: retained entries changed, or a non-nil empty slice
+	// fault injection
+	damage    map[uint64]int // live ref -> number of lines its disk buffer still yields
+	nextFail  string         // "", "disk" (diskBuf cannot create its file), "encode" (a record the encoder rejects)
+	faultErrs int            // Store calls that failed on a damaged disk buffer
+	cutSeen   int            // updates that were cut by a failed Store
 }
 
 func newWorld(r *hx.Run, p *pool) *world {
@@ -343,7 +350,7 @@ func newWorld(r *hx.Run, p *pool) *world {
 	if err != nil {
 		panic(err)
 	}
-	w := &world{r: r, p: p, st: st, src: &uuidSrc{}, live: map[uint64]*update{}}
+	w := &world{r: r, p: p, st: st, src: &uuidSrc{}, live: map[uint64]*update{}, damage: map[uint64]int{}}
 	uuid.SetRand(w.src)
 	r.Op("reset", "ok", false)
 	return w
@@ -414,6 +421,39 @@ func (w *world) record(op byte, updater, fp string, toks []int, collide []uint64
 	w.src.mu.Unlock()
 
 	ctx := context.Background()
+	if len(w.hist)%3 == 1 {
+		// the store does not look at the context (diskBuf ignores it): a cancelled one changes nothing
+		c, cancel := context.WithCancel(ctx)
+		cancel()
+		ctx = c
+		w.r.Count("rec:ctx-cancelled")
+	}
+	fail := w.nextFail
+	w.nextFail = ""
+	if fail == "encode" && op != 'e' {
+		fail = "disk" // every claircore.Vulnerability encodes
+	}
+	if fail == "disk" {
+		oldTmp, hadTmp := os.LookupEnv("TMPDIR")
+		points := 0
+		verifhook.Install(func(site, key string) {
+			if site == "jsonblob.diskbuf" {
+				points++
+				os.Setenv("TMPDIR", "/nonexistent/verif-c16")
+			}
+		})
+		defer func() {
+			verifhook.Install(nil)
+			if hadTmp {
+				os.Setenv("TMPDIR", oldTmp)
+			} else {
+				os.Unsetenv("TMPDIR")
+			}
+			if points != 1 {
+				w.r.Fail("", fmt.Sprintf("a recording call created %d disk buffers, want 1: %s", points, w.witness()))
+			}
+		}()
+	}
 	var ref uuid.UUID
 	var err error
 	out := hx.Guard(func() string {
@@ -425,6 +465,12 @@ func (w *world) record(op byte, updater, fp string, toks []int, collide []uint64
 			}
 			if len(toks) == 0 && len(w.all)%2 == 0 {
 				es = nil
+			}
+			if fail == "encode" {
+				// a record whose RawMessage is not JSON: the per-update encoder returns an error
+				bad := driver.EnrichmentRecord{Tags: []string{"bad"}, Enrichment: json.RawMessage(`{"unterminated":`)}
+				at := len(w.hist) % (len(es) + 1)
+				es = append(es[:at:at], append([]driver.EnrichmentRecord{bad}, es[at:]...)...)
 			}
 			ref, err = w.st.UpdateEnrichments(ctx, updater, driver.Fingerprint(fp), es)
 		default:
@@ -460,19 +506,26 @@ func (w *world) record(op byte, updater, fp string, toks []int, collide []uint64
 	w.src.mu.Unlock()
 	var line string
 	uh, fh := hx.Hex([]byte(updater)), hx.Hex([]byte(fp))
-	if op == 'd' {
-		line = fmt.Sprintf("delta %s %s %s %s %d", uh, fh, joinU(cands), w.recsArg(toks), ndel)
-	} else {
-		line = fmt.Sprintf("rec %c %s %s %s %s", op, uh, fh, joinU(cands), w.recsArg(toks))
-	}
 	k := op
 	if op == 'd' {
 		k = 'v'
 	}
+	switch {
+	case fail != "":
+		line = fmt.Sprintf("recfail %c %s %s %s", k, uh, fh, w.recsArg(toks))
+		w.r.Count("fault:record-" + fail)
+	case op == 'd':
+		line = fmt.Sprintf("delta %s %s %s %s %d", uh, fh, joinU(cands), w.recsArg(toks), ndel)
+	default:
+		line = fmt.Sprintf("rec %c %s %s %s %s", op, uh, fh, joinU(cands), w.recsArg(toks))
+	}
 	desc := fmt.Sprintf("%c(updater=%q fp=%q records=%s)", op, updater, fp, w.toksDesc(toks))
+	if fail != "" {
+		desc += "[fails:" + fail + "]"
+	}
 	w.hist = append(w.hist, desc)
 	if out == "" {
-		u := &update{kind: k, updater: updater, fp: fp, toks: toks, ref: canon(ref), desc: desc}
+		u := &update{kind: k, updater: updater, fp: fp, toks: toks, ref: canon(ref), desc: desc, cut: -1}
 		if _, dup := w.live[u.ref]; dup {
 			w.r.Fail("", "recording returned a ref that is already a key of the store: "+w.witness())
 		}
@@ -553,6 +606,16 @@ func sortedU(m map[uint64]bool) []uint64 {
 // store calls Store on the scenario's writer and reconstructs a map-iteration
 // order consistent with what was observed.
 func (w *world) store() {
+	var fs []string
+	for _, c := range sortedU(keysOf(w.live)) {
+		if k, ok := w.damage[c]; ok {
+			fs = append(fs, fmt.Sprintf("%d:%d", c, k))
+		}
+	}
+	faultArg := "-"
+	if len(fs) > 0 {
+		faultArg = strings.Join(fs, ",")
+	}
 	before := w.buf.Len()
 	var err error
 	out := hx.Guard(func() string {
@@ -600,9 +663,27 @@ func (w *world) store() {
 	order = append(order, hidden...)
 	left := sortedU(remaining)
 	order = append(order, left...)
-	for c := range w.live {
+	writtenOf := map[uint64]int{}
+	for _, ln := range lines {
+		if i := strings.IndexByte(ln, '/'); i > 0 {
+			if c, err := strconv.ParseUint(ln[:i], 10, 64); err == nil {
+				writtenOf[c]++
+			}
+		}
+	}
+	cutNow := 0
+	var notes []string
+	for c, u := range w.live {
 		if !remaining[c] {
+			if writtenOf[c] < len(u.toks) {
+				// deleted from the map without having been written completely
+				u.cut = writtenOf[c]
+				w.cutSeen++
+				cutNow++
+				notes = append(notes, fmt.Sprintf("(Store wrote %d of the %d records of %s)", u.cut, len(u.toks), u.desc))
+			}
 			delete(w.live, c)
+			delete(w.damage, c)
 		}
 	}
 	ls := "-"
@@ -612,8 +693,13 @@ func (w *world) store() {
 	if out != "panic" {
 		out = fmt.Sprintf("%s lines=%s left=%s", out, ls, joinU(left))
 	}
-	w.r.Op("store "+joinU(order), out, true)
+	w.r.Op("store "+joinU(order)+" "+faultArg, out, true)
 	w.hist = append(w.hist, "Store")
+	sort.Strings(notes)
+	w.hist = append(w.hist, notes...)
+	if cutNow > 1 {
+		w.r.Fail("", fmt.Sprintf("one Store call cut %d entries: %s", cutNow, w.witness()))
+	}
 	w.r.Count("store:entries=" + sizeBucket(len(order)))
 	if err != nil {
 		w.storeErrs++
@@ -622,12 +708,86 @@ func (w *world) store() {
 		if errors.Is(err, bufio.ErrTooLong) {
 			w.tooLong = true
 			w.r.Count("store:err-too-long")
+		} else if faultArg != "-" {
+			w.faultErrs++
+			w.r.Count("store:err-damaged-disk-buffer")
 		}
 	}
 	// The Store call has been handed every update recorded so far; the
 	// statement is judged on that, not on what the map still holds. A Store
 	// error is itself a failure of the statement (see oracle).
 	w.unflushed = false
+}
+
+// damageBuf damages the disk buffer of the live entry ref so that it yields
+// fewer lines than were recorded. mode: 'C' close the file; 'K' truncate after
+// line k (k >= number of lines: nothing is cut); 'M' truncate inside line k;
+// 'N' truncate just before the newline of line k (the line is still complete).
+func (w *world) damageBuf(ref uint64, mode byte, k int, frac int) {
+	u := w.live[ref]
+	if u == nil {
+		return
+	}
+	if _, done := w.damage[ref]; done {
+		return
+	}
+	var f *os.File
+	for id, e := range w.st.Entries() {
+		if canon(id) == ref {
+			f = e.DiskBufForVerif()
+		}
+	}
+	if f == nil {
+		w.r.Fail("", fmt.Sprintf("entry %d has no disk buffer: %s", ref, w.witness()))
+		return
+	}
+	n := len(u.toks)
+	off := func(i int) int64 { // start of line i
+		var o int64
+		for j := 0; j < i && j < n; j++ {
+			o += int64(w.p.items[u.toks[j]].n) + 1
+		}
+		return o
+	}
+	yields := n
+	what := ""
+	switch mode {
+	case 'C':
+		f.Close()
+		yields = 0
+		if n == 0 {
+			yields = 0
+		}
+		what = "closed"
+	case 'K':
+		if k < n {
+			f.Truncate(off(k))
+			yields = k
+		} else {
+			yields = k // nothing is cut: the fault is harmless
+		}
+		what = fmt.Sprintf("truncated after line %d", k)
+	case 'M':
+		if n == 0 {
+			return
+		}
+		k %= n
+		ln := int64(w.p.items[u.toks[k]].n)
+		f.Truncate(off(k) + 1 + int64(frac)%(ln-1))
+		yields = k
+		what = fmt.Sprintf("truncated inside line %d", k)
+	case 'N':
+		if n == 0 {
+			return
+		}
+		k %= n
+		f.Truncate(off(k) + int64(w.p.items[u.toks[k]].n))
+		yields = k + 1
+		what = fmt.Sprintf("truncated before the newline of line %d", k)
+	}
+	w.damage[ref] = yields
+	w.hist = append(w.hist, fmt.Sprintf("(disk buffer of %s %s)", u.desc, what))
+	w.r.Count("fault:diskbuf-" + string(mode))
 }
 
 func keysOf(m map[uint64]*update) map[uint64]bool {
@@ -798,6 +958,7 @@ func (w *world) oracle(got []loaded, fin string) {
 	}
 	want := map[string]int{}
 	wantNonEmpty := map[string]int{}
+	wantCut := map[string]int{} // what must come back when Store calls failed on damaged disk buffers
 	zero := 0
 	for _, u := range w.all {
 		want[u.key()]++
@@ -805,6 +966,14 @@ func (w *world) oracle(got []loaded, fin string) {
 			wantNonEmpty[u.key()]++
 		} else {
 			zero++
+		}
+		switch {
+		case u.cut < 0 && len(u.toks) > 0:
+			wantCut[u.key()]++
+		case u.cut > 0:
+			c := *u
+			c.toks = u.toks[:u.cut]
+			wantCut[c.key()]++
 		}
 	}
 	have := map[string]int{}
@@ -825,6 +994,19 @@ func (w *world) oracle(got []loaded, fin string) {
 	okFin := fin == "F/ok" && w.storeErrs == 0
 	if okFin && same(want, have) {
 		return
+	}
+	if w.faultErrs > 0 && !w.tooLong {
+		// Disk buffers were damaged on purpose. What the code promises then
+		// (theorem failed_store_retry_load): every failed Store call cut exactly
+		// one update, everything else comes back whole, the cut update comes back
+		// as its written prefix, and the file loads without error.
+		if len(w.live) > 0 {
+			return // judged when later Store calls have flushed what the failed one did not reach
+		}
+		if fin == "F/ok" && w.storeErrs == w.faultErrs && w.cutSeen == w.faultErrs && same(wantCut, have) {
+			w.r.Count("oracle:damaged-disk-buffer-loses-only-the-tail-of-one-update")
+			return
+		}
 	}
 	var gs []string
 	for _, g := range got {
@@ -863,6 +1045,9 @@ func (w *world) hasOversize() bool {
 //	c<k>             the next recording call first draws k colliding uuids
 //	B<len> E<len>    record one vulnerability / enrichment record whose line is len bytes
 //	X                the next recording call draws a uuid that was already written out
+//	F G              the next recording call fails: diskBuf cannot create its file / the encoder rejects a record
+//	C K<k> M<k> N<k> damage the disk buffer of the update recorded last: close it, truncate it after line k,
+//	                 inside line k, just before the newline of line k
 //	S                Store
 //	L                Load
 //	Q                query latest refs and Initialized
@@ -903,6 +1088,16 @@ func script(r *hx.Run, p *pool, text string) {
 				w.record('e', "bigE", "fb", []int{p.sizedEnrichment(n, i), p.es[0]}, w.collisions(collide, reuse, flushed), 0)
 			}
 			collide, reuse = 0, false
+		case 'K', 'M', 'N', 'C':
+			// damage the disk buffer of the entry recorded last that is still in the map
+			k, _ := strconv.Atoi(rest)
+			if len(w.all) > 0 {
+				w.damageBuf(w.all[len(w.all)-1].ref, head, k, 7)
+			}
+		case 'F':
+			w.nextFail = "disk"
+		case 'G':
+			w.nextFail = "encode"
 		case 'c':
 			collide, _ = strconv.Atoi(rest)
 		case 'X':
@@ -956,6 +1151,24 @@ func (w *world) query() {
 		out = "err"
 	}
 	w.r.Op("init", out, false)
+	// Entries(): the keys with the exported fields of their values
+	var es []string
+	m := w.st.Entries()
+	ids := map[uint64]bool{}
+	byRef := map[uint64]*jsonblob.Entry{}
+	for id, e := range m {
+		ids[canon(id)] = true
+		byRef[canon(id)] = e
+	}
+	for _, c := range sortedU(ids) {
+		e := byRef[c]
+		if e == nil {
+			es = append(es, fmt.Sprintf("%d/nil", c))
+			continue
+		}
+		es = append(es, fmt.Sprintf("%d/%s/%s", c, hx.Hex([]byte(e.Updater)), hx.Hex([]byte(e.Fingerprint))))
+	}
+	w.r.Op("entries", joinS(es), len(es) > 1)
 }
 
 // Witnesses of the defects of DESIGN section 5 rows 12 and 13 and the other
@@ -977,6 +1190,16 @@ var builtin = []string{
 	"v2 S L X v3 S L",                      // a uuid drawn again after its entry was written out
 	"Q v1 Q e1 Q S Q",                      // latest refs, Initialized
 	"d3 d0 S L",                            // delta updates
+	"F v2 S L",                             // a recording call that fails creates nothing
+	"v2 F v3 G e2 e1 Q S L",                // failed calls between successful ones
+	"G e0 F e1 S L",                        //
+	"v3 K1 S L",                            // disk buffer truncated after its first line: Store fails, one record is in the file
+	"v3 C S L",                             // disk buffer closed: nothing of the entry is written
+	"v2 v4 M2 e3 S L S L",                  // cut inside the third line; the second Store flushes what the first did not reach
+	"e3 N1 v1 S L S L",                     // only the newline of the second line is missing: two lines are readable
+	"v2 K2 S L",                            // nothing is missing: no failure
+	"v2 K5 e0 C S L",                       // harmless faults (beyond the end; an update without records)
+	"v3 K0 e2 K1 v1 S S S L",               // two damaged buffers: each Store call stops at one of them
 }
 
 var builtinBig = []string{
@@ -1038,6 +1261,10 @@ func history(r *hx.Run, rnd *hx.Rand, p *pool) {
 		nops = 20 + rnd.Intn(41)
 	}
 	r.Count("history:ops=" + sizeBucket(nops))
+	faulty := rnd.Chance(1, 4)
+	if faulty {
+		r.Count("history:with-faults")
+	}
 	for i := 0; i < nops && !r.Stop(); i++ {
 		var collide []uint64
 		if len(w.live) > 0 && rnd.Chance(1, 8) {
@@ -1045,6 +1272,15 @@ func history(r *hx.Run, rnd *hx.Rand, p *pool) {
 			for k := 1 + rnd.Intn(3); k > 0; k-- {
 				collide = append(collide, live[rnd.Intn(len(live))])
 			}
+		}
+		if faulty && rnd.Chance(1, 6) {
+			w.nextFail = rnd.Pick("disk", "encode")
+		}
+		if faulty && len(w.live) > 0 && rnd.Chance(1, 5) {
+			live := sortedU(keysOf(w.live))
+			ref := live[rnd.Intn(len(live))]
+			n := len(w.live[ref].toks)
+			w.damageBuf(ref, rnd.Pick("C", "K", "K", "M", "M", "N")[0], rnd.Intn(n+2), rnd.Intn(1<<16))
 		}
 		switch c := rnd.Intn(100); {
 		case c < 40:
@@ -1064,6 +1300,17 @@ func history(r *hx.Run, rnd *hx.Rand, p *pool) {
 	}
 	w.store()
 	w.load()
+	// a Store call that failed on a damaged buffer left the unvisited entries in the map
+	for i := 0; len(w.live) > 0 && !r.Stop(); i++ {
+		if i == 70 {
+			r.Fail("", "70 Store calls did not empty the map: "+w.witness())
+			break
+		}
+		w.store()
+		if len(w.live) == 0 {
+			w.load()
+		}
+	}
 	if rnd.Chance(1, 10) {
 		w.store()
 		w.load()
@@ -1165,7 +1412,7 @@ func concurrent(r *hx.Run, rnd *hx.Rand, p *pool) {
 			if reads != total {
 				used = "?"
 			}
-			u := &update{kind: c.op, updater: c.updater, fp: c.fp, toks: c.toks, ref: canon(c.ref), desc: desc}
+			u := &update{kind: c.op, updater: c.updater, fp: c.fp, toks: c.toks, ref: canon(c.ref), desc: desc, cut: -1}
 			if _, dup := w.live[u.ref]; dup {
 				w.r.Fail("", "two concurrent recordings returned the same ref: "+w.witness())
 			}
